@@ -13,9 +13,9 @@ def ob(id, entry, cases, expect, bounds, mode='fpa', **kw):
 L2 = (0, 1, 2)
 import C06 as _C06
 SEC_EXPECT = ['a section for a coordinate that does not exist is rejected with an exception', 'a section whose number of segments differs from the default list is rejected with an exception', 'consistent sections are accepted',
-              'every coordinate carries the segments of its own section, the default segment list when no section names it', 'Cartesian: the bounding box contains every coordinate extended by maximum thickness + maximum total length', 'end', 'end-rejected']
+              'every coordinate carries the segments of its own section, the default segment list when no section names it', 'Cartesian: the bounding box contains every coordinate extended by maximum thickness + maximum total length', 'every model a segment uses - its own or an inherited one - has been parsed', 'end', 'end-rejected']
 def sec(fam, name, cases, cases_thorough, expect=SEC_EXPECT):
-    return dict(id='C12.sections.' + name, harness='c07_parse.cc', entry='h_c12_sections', mode='real', cases=[(fam,) + c for c in cases], cases_thorough=[(fam,) + c for c in cases_thorough], expect=expect,
+    return dict(id='C12.sections.' + name, harness='c07_parse.cc', entry='h_c12_sections', mode='real', cases=[(fam,) + c + (0,) for c in cases] + [(fam, 2, 1, 1, 1, 1), (fam, 2, 2, 2, 2, 1)], cases_thorough=[(fam,) + c + (mo,) for c in cases_thorough for mo in (0, 1)], expect=expect,
                 bounds='2-3 coordinates, 1-2 default segments, 1-2 section overrides with ARBITRARY 32-bit coordinate numbers, 1-2 segments per override; Cartesian', tus=['c07_parse.cc'] + _C06.TUS[1:], native=False, allow_throw=True,
                 stubs=['Parameters API stub: coordinates, dip point, default segment list and the overrides (coordinate number, segment values) arbitrary; no models; the stub answers the repeated visits of a section with the same values'],
                 assumes=['non-negative lengths and thicknesses (schema)'], outside=['models inside section segments (model inheritance lives in Parameters::get_vector<Segment>, JSON layer)', 'spherical coordinates'], time_cap=900, fork_select=False)
@@ -42,3 +42,6 @@ OBLIGATIONS = [
     ob('C12.opt.strings', 'h_c12_string_option', [(0,), (1,), (2,)], ['an accepted lithology option leaves a defined, supported lithology', 'an accepted reference model option leaves a defined, supported reference model', 'end'],
        'string options the schema leaves unrestricted: lithology (both water-content models), reference model name (mass conserving); three supported values and one unsupported each', mode='fp', native=False),
 ]
+# a wrong marker in the segment parser makes the slab's parse_entries walk past the end of a JSON array (crash, no exception): the inheritance obligation of C10 is run here as well
+import C10i as _C10i
+OBLIGATIONS = OBLIGATIONS + [_C10i.inherit('C12.inherit')]
